@@ -38,7 +38,11 @@ func (cer *CER) Parse(m *diam.Message, localRole Role) (failedAVP *diam.AVP, err
 		return nil, err
 	}
 	if cer.InbandSecurityID != nil {
-		if v := cer.InbandSecurityID.Data.(datatype.Unsigned32); v != 0 {
+		v, ok := cer.InbandSecurityID.Data.(datatype.Unsigned32)
+		if !ok {
+			return cer.InbandSecurityID, &ErrUnexpectedAVP{cer.InbandSecurityID}
+		}
+		if v != 0 {
 			return nil, ErrNoCommonSecurity
 		}
 	}
